@@ -311,7 +311,7 @@ def run(ctx):
         ctx.violation("harness-build", {"log": bout[-4000:]}, "harness c06 does not build against /repo", no_input=True)
         return
     quick = ctx.quick
-    per = 10 if quick else 40
+    per = 7 if quick else 40
     cases = gen_cases(ctx.rng, per)
     safe = [c for c in cases if not dangerous(c)]
     dang = [c for c in cases if dangerous(c)]
@@ -347,8 +347,8 @@ def run(ctx):
     uo = run_harness(binp, "fold", ["useless %s %s %s %d" % u for u in ul], 2)
     # ---- run time (+ consts) through real packages
     pk_base = os.path.join(ctx.work, "pkgs")
-    npk = 8 if quick else 48
-    per_pk = 110 if quick else 220
+    npk = 12 if quick else 48
+    per_pk = 60 if quick else 220
     runnable = [c for c in allc]
     ctx.rng.shuffle(runnable)
     # corpus cases first
@@ -371,7 +371,7 @@ def run(ctx):
         dirs.append(d); layout.append(names)
     # std-level expressions
     std_cases = []
-    nstd = 90 if quick else 600
+    nstd = 60 if quick else 600
     for _ in range(nstd):
         ty, tmpl, tys = ctx.rng.choice(STD_TEMPLATES)
         vals = []
@@ -384,7 +384,7 @@ def run(ctx):
             vals[1] = boundary(ctx.rng, max(2, BITS[tys[1]] // 2))
         std_cases.append((ty, tmpl, tys, vals, std_ref(ty, tmpl, tys, vals)))
     std_dirs, std_layout = [], []
-    per_std = 45
+    per_std = 30 if quick else 45
     for k in range(0, len(std_cases), per_std):
         chunk = std_cases[k:k + per_std]
         src = ["library;", STD_PRELUDE]
